@@ -199,6 +199,7 @@ static void teardown(void *vs) { st_t *s = vs; SPIF_MAP_DEL(s->m); free(s); }
 int main(int argc, char **argv)
 {
     mc_init("C03", argc, argv);
+    libast_debug_level = (unsigned) mc_dlevel();        /* --dlevel=N: the whole run at runtime debug level N (default 0) */
     NK = (int) mc_arg_int("keys", mc_thorough() ? 6 : 3);
     if (NK > KMAX) NK = KMAX;
     build_ops();
